@@ -7,7 +7,7 @@ import re
 
 KINDS = [
     "crash_prefix", "torn_tail", "lost_block", "dup_block", "swap_blocks",
-    "line_del", "line_dup", "line_swap", "bitflip", "char_sub", "field_overwrite", "garbage_block",
+    "line_del", "line_dup", "line_swap", "bitflip", "char_sub", "field_overwrite", "garbage_block", "line_blowup", "deep_nesting",
 ]
 
 NUM_RE = re.compile(rb"(?<![A-Za-z_])[-+]?(?:\d+\.?\d*|\.\d+)(?:[eEdD][-+]?\d+)?")
@@ -44,6 +44,19 @@ def apply(data, f):
         if f.get("mode", "hole") == "hole":
             return data[:a] + b"\0" * (b - a) + data[b:]
         return data[:a] + data[b:]
+    if kind == "line_blowup":
+        # one line becomes very long (a writer that lost its newlines)
+        ls = _lines(data)
+        i = f["i"]
+        if i >= len(ls):
+            return data
+        body = ls[i].rstrip(b"\r\n") or b"0 "
+        ls[i] = (body + b" ") * max(1, f["size"] // (len(body) + 1)) + b"\n"
+        return b"".join(ls)
+    if kind == "deep_nesting":
+        # deeply nested brackets at some offset (recursion in recursive-descent parsers such as json)
+        off = min(f["off"], len(data))
+        return data[:off] + f["open"].encode() * f["depth"] + data[off:]
     if kind == "garbage_block":
         # a misdirected write: the block holds bytes that belong elsewhere (binary data, NULs, invalid UTF-8)
         import random
@@ -137,6 +150,11 @@ def random_fault(rng, data, kind, raw_offsets=None):
         bs = rng.choice([64, 512, 4096])
         return {"kind": kind, "n": rng.randint(0, n), "bs": bs, "fill": rng.choice(["nul", "nul", "stale", "x"]),
                 "stale_off": rng.randint(0, max(0, n - 1))}
+    if kind == "line_blowup":
+        return {"kind": kind, "i": rng.randrange(max(1, len(_lines(data)))), "size": rng.choice([5_000, 70_000, 1_000_000])}
+    if kind == "deep_nesting":
+        return {"kind": kind, "off": rng.choice([0, 1, rng.randrange(max(1, n))]), "open": rng.choice(["[", "{\"a\":", "(", "[["]),
+                "depth": rng.choice([50, 2000, 100_000])}
     if kind == "garbage_block":
         bs = rng.choice([16, 64, 512, 4096, 1 << 22])
         nb = max(1, (n + bs - 1) // bs)
